@@ -24,7 +24,7 @@ ASSUMPTIONS = ['the default-layout unskipped transform is anchored to the NumPy 
                'float64; rounding-level bound 8*eps*gain*max|x|']
 TIMEOUT = {'quick': 900, 'thorough': 3300}
 WORKER_BUDGET = {'quick': 600, 'thorough': 2700}
-MIN_HELD = {'quick': 400, 'thorough': 2000}
+MIN_HELD = {'quick': 400, 'thorough': 8361}
 EXHAUSTIVE = {'quick': False, 'thorough': False}
 PAIRS = [(o, r) for o in range(-6, 6) for r in range(-6, 6) if o % 6 != r % 6]
 SHAPES = [(8, 8), (12, 20), (7, 10), (9, 13), (6, 14), (16, 10), (5, 5), (10, 18), (4, 6), (2, 3), (22, 9)]
